@@ -12,6 +12,7 @@ WORKLOADS = {
                 thorough=[('names', 200, 300, 4000), ('recycle', 150, 200, 4000), ('generic', 150, 300, 2200), ('bigfile', 60, 150, 12000)]),
     'C05': dict(quick=[('reclaim', 12, 60, 4000), ('reclaim', 6, 40, 9000)],
                 thorough=[('reclaim', 250, 200, 4000), ('reclaim', 60, 120, 9000), ('names', 100, 200, 2200)]),
+    'C06': dict(quick=[('lockorder', 16, 80, 4000), ('names', 6, 60, 4000)], thorough=[('lockorder', 400, 300, 4000), ('names', 100, 300, 4000), ('stale', 100, 300, 4000)]),
     'C08': dict(quick=[('stale', 16, 70, 4000)], thorough=[('stale', 300, 300, 4000), ('names', 100, 300, 4000)]),
     'C09': dict(quick=[('fail', 10, 60, 1600), ('fail', 8, 60, 1570), ('fail', 6, 50, 2100)],
                 thorough=[('fail', 150, 200, 1600), ('fail', 100, 200, 1570), ('fail', 100, 200, 2100), ('fail', 60, 200, 1545)]),
